@@ -31,6 +31,20 @@ def parseTile (s : String) : Option Tile :=
   | [some h, some x, some y, some v, some z] => newTile h x y v z
   | _ => none
 
+def sortPairs (l : List (Int × Int)) : List (Int × Int) :=
+  (l.toArray.qsort (fun a b => a.1 < b.1 || (a.1 == b.1 && a.2 < b.2))).toList
+def showGroups (hdr : String) (o : Outcome (List (List (Int × Int)))) : String :=
+  showOut (o.map fun gs =>
+    if gs.isEmpty then "[]" else
+    ";".intercalate (gs.map fun g => hdr ++ "|" ++ " ".intercalate ((sortPairs g).map fun p => s!"{p.1}:{p.2}")))
+def parseQV (s : String) : Option QV :=
+  match (s.splitOn ":").map String.toInt? with
+  | [some a, some b, some c, some d] => some ⟨a, b, c, d⟩
+  | _ => none
+
+def intsOf (s : String) : List Int := (commaSplit s).map int!
+def sortInts (l : List Int) : List Int := (l.toArray.qsort (fun a b => a < b)).toList
+
 def dispatch (op : String) (a : List String) : Option String :=
   match op, a with
   | "shift", [id, dx, dy, dv] => some (shift id (int! dx) (int! dy) (int! dv))
@@ -58,6 +72,29 @@ def dispatch (op : String) (a : List String) : Option String :=
     some (match (commaSplit ts).mapM parseTile with
       | none => "ERR"
       | some tl => showSet ((tilesToSp tl (int! e) (int! o) (int! v)).map fun l => l.map Ext.spId))
+  | "qenc", [z, x, y] => some (toString (qkEnc (int! z) (int! x) (int! y)))
+  | "qdec", [k, z] => let p := qkDec (int! k) (int! z); some s!"{p.1},{p.2}"
+  | "qv2ext", [l, h, v] =>
+    some (match (commaSplit l).mapM parseQV with
+      | none => "BADARG"
+      | some qs => showSet ((qvToExt qs (int! h) (int! v)).map fun r => r.map Ext.id))
+  | "e2qv", [ids, h, v] => some (showGroups s!"{h}/{v}/0/0" (extToQV (commaSplit ids) (int! h) (int! v)))
+  | "e2qa", [ids, q, a, e, o] =>
+    some (showGroups s!"{q}/{a}/{e}/{o}" (extToQA (commaSplit ids) (int! q) (int! a) (int! e) (int! o)))
+  | "qvrt", [ids, h, v, bh, bv] =>
+    some (showSet (match changeExt (commaSplit ids) (int! h) (int! v) with
+      | .ok mid => if qkCheckZoom (int! h) (int! v) then changeExt mid (int! bh) (int! bv) else .err
+      | o => o))
+  | "uni", [a, b] => some (showInts (sortInts (unionL (intsOf a) (intsOf b))))
+  | "inter", [a, b] => some (showInts (intersectL (intsOf a) (intsOf b)))
+  | "diff", [a, b] => some (showInts (differenceL (intsOf a) (intsOf b)))
+  | "uniq", [a] => some (showInts (sortInts (uniqueL (intsOf a))))
+  | "incl", [a, t] => some (if includeL (intsOf a) (int! t) then "true" else "false")
+  | "max", [a] => some (showOptInt (maxL (intsOf a)))
+  | "min", [a] => some (showOptInt (minL (intsOf a)))
+  | "ashift", [i, sh] => some (toString (arithShift (int! i) (int! sh)))
+  | "comb", [n, k] =>
+    some (";".intercalate ((combinations (int! n) (int! k) 10000).map fun p => " ".intercalate (p.map toString)))
   | "ovE", [a, b] => some (showBool (overlapExt a b))
   | "ovEA", [a, b] => some (showBool (overlapExtArr (commaSplit a) (commaSplit b)))
   | "ovS", [a, b] => some (showBool (overlapSp a b))
